@@ -86,3 +86,13 @@ chk("C17", "exploration",
     "clang -M is the independent witness of 'read'; cases where my model and clang -M disagree are inconclusive. GNU make only for names without backslashes.",
     "runtime monitoring: set-equality oracle over depfile / callbacks / clang -M + make as consumer",
     "DESIGN.md §4 C17")
+
+chk("C01", "exploration",
+    "Headers from six generator families (C type graphs, function/variable libraries, hostile identifiers — Rust keywords of all "
+    "editions, primitive and prelude names, '_', '$', tag/ordinary collisions —, C++ namespaces, ~110 hostile single constructs in C "
+    "and C++) that clang accepts, x option sets sampled from a 68-group pool x edition 2018/2021/2024; the bindings are compiled by "
+    "rustc in the matching edition (layout assertions are evaluated). Hostile regions where the unchanged tree already fails are "
+    "recorded as known findings with per-construct signatures.",
+    "rustc 1.95 defines valid Rust. Options documented as not compiling alone and C++ features documented as unsupported are excluded (DESIGN §4).",
+    "runtime monitoring: generate-and-compile oracle over seeded header/option/edition space",
+    "DESIGN.md §4 C01")
